@@ -347,8 +347,17 @@ def random_ic_scenario(rng, nmax=8, allow_sat=True):
         vocab[f'amb{k}'] = nodes
     if rng.random() < 0.4:                   # a multi-word form
         vocab['two words'] = [rng.randrange(n)]
+    extra = []
+    if rng.random() < 0.5:                   # forms that differ only in case, in different synsets
+        for w in rng.sample(sorted(vocab), min(len(vocab), rng.randint(1, 2))):
+            v = w.capitalize() if rng.random() < 0.6 else w.upper()
+            if v != w and v not in vocab:
+                vocab[v] = sorted(set(rng.sample(range(n), rng.randint(1, min(n, 2)))))
+    if vocab and rng.random() < 0.5:         # tokens whose case matches no stored form (found by the normalized pass)
+        extra = [w.upper() if w.upper() not in vocab else w.title() for w in rng.sample(sorted(vocab), 1)]
+        extra = [x for x in extra if x not in vocab]
     g['words'] = vocab
-    toks = list(vocab) + ['unknown1', 'unknown2']
+    toks = list(vocab) + extra + ['unknown1', 'unknown2', 'Unknown1']
     corpus = [rng.choice(toks) for _ in range(rng.randint(0, 12))]
     smoothing = rng.choice([(1, 1), (1, 1), (1, 2), (2, 1), (0, 1), (1, 4)])
     mode = rng.choice(['corpus', 'corpus', 'arbitrary'])
@@ -358,6 +367,22 @@ def random_ic_scenario(rng, nmax=8, allow_sat=True):
         sc['weights'] = [[rng.randint(1, 12), rng.choice([1, 2, 4, 3])] for _ in range(n)]
         sc['total'] = [rng.randint(1, 40), rng.choice([1, 2])]
     return sc
+
+
+def ic_lookup(g, t):
+    """synsets of a corpus token, by the documented two-pass search of Wordnet.synsets() with the
+    default normalizer (lemmatization.rst): stored form == token or normalized stored form == token;
+    only when that finds nothing, the same with the normalized token"""
+    import lookup
+    words = g['words']
+
+    def one(q):
+        out = []
+        for w, nodes in words.items():
+            if w == q or lookup.norm(w) == q:
+                out += [nd for nd in nodes if nd not in out]
+        return out
+    return one(t) or one(lookup.norm(t))
 
 
 def ic_model_request(sc):
@@ -370,7 +395,7 @@ def ic_model_request(sc):
         counts = {}
         for t in sc['corpus']:
             counts[t] = counts.get(t, 0) + 1
-        req['words'] = [[c, g['words'].get(t, [])] for t, c in counts.items()]
+        req['words'] = [[c, ic_lookup(g, t)] for t, c in counts.items()]
         req['distribute'] = sc['distribute']
         req['smoothing'] = sc['smoothing']
     return req
